@@ -133,6 +133,43 @@ def oracle(ctx):
         if missing:
             res.oracle_failures.append(dict(op=op, input=text, impl_output=str(argv)[:600],
                                             oracle_expectation=f'{key} is read as {"a plain list (backslashes literal)" if kind == "lookup_all_strv" else "argument words (escapes decoded)"}: the words {want} reach the command; missing {missing}'))
+    # … and however the assignment is spelled in the file: the words on continued, indented lines — words that look like section
+    # headers, comments or assignments when they start a physical line (indented, so they do not: KF-C03-1 is column 0 only)
+    ML_WORDS = ['alpha', '[1,2,3]', 'be\\x41ta', '"q r"', '[z', '#nocomment', ';semi', 'k=v', '[ f', '/x', ']', 'omega']   # (no word starts with '-': AddDevice reads that as "optional")
+    ml_cases = []
+    for (key, kind), fns in sorted(kinds.items()):
+        for fn in sorted(fns):
+            ty = FN_TY.get(fn)
+            if ty is None or key not in ctx.tables['supported'][G.SUP[ty]] or key in ('Mount', 'RemapUid', 'RemapGid'):
+                continue
+            words = [rnd.choice(ML_WORDS) for _ in range(rnd.randint(3, 6))]
+            # at least one continued line begins (after its indentation) with a word that would open a section in column 0
+            force = rnd.randrange(1, len(words))
+            words[force] = rnd.choice(['[1,2,3]', '[z', '[ f', '[alpha,beta]', '[::1]:80'])
+            spelled, one_line = words[0], words[0]
+            for wi, w in enumerate(words[1:], 1):
+                brk = rnd.random() < 0.6 or wi == force
+                spelled += (' \\\n' + rnd.choice(['  ', '\t', ' ', '    ']) if brk else ' ') + w
+                one_line += ' ' + w
+            text = '[' + G.SEC[ty] + ']\n' + ''.join(b + '\n' for b in G.BASE[ty]) + f'{key}={spelled}\n'
+            ml_cases.append((ty, key, kind, text, one_line))
+    mops = [f'convert\t0\t0\t{hx("/q/m." + ty)}\t{hx(text)}' for ty, key, kind, text, one in ml_cases]
+    mio = ctx.impl(mops)
+    for (ty, key, kind, text, one), op, a in zip(ml_cases, mops, mio):
+        r = canon.parse_convert(a)[0]
+        if r[0] != 'svc':
+            continue
+        res.oracle_evals += 1
+        want = [unhx(t) for t in ctx.model([('spec_split_strv' if kind == 'lookup_all_strv' else 'spec_split_args') + '\t' + hx(one)])[0][4:-1].split(' ') if t]
+        execs = [v for k, v in r[2].get('Service', []) if k.startswith('ExecStart')]
+        argv = []
+        for e in execs:
+            b = ctx.model(['spec_split_exec\t' + hx(e)])[0]
+            argv += [unhx(t) for t in b[4:-1].split(' ') if t] if b.startswith('ok [') else []
+        missing = [w for w in want if not any(w.lower() in x.lower() for x in argv)]
+        if missing or sorted(r[3]) != sorted(set(r[3])) or any(sec.startswith(('1', 'z', ' ')) for sec in r[3]):
+            res.oracle_failures.append(dict(op=op, input=text, impl_output=str(argv)[:500] + f' sections {r[3]}',
+                                            oracle_expectation=f'{key} spelled over several lines is the list {want}: every word reaches the command (missing {missing}) and no line of the value opens a section'))
     # … and wherever the assignment is written: the same units with the list assignment moved into a drop-in (merged through
     # load_dropins_from, where the raw text must survive unchanged) generate the same services
     import filespell
